@@ -505,7 +505,39 @@ func (c *Ctx) c17NilInitialiser() {
 	}
 }
 
+// c17DynamicInitialiser: package variables of type any declared WITH an initialiser, holding a value of another
+// dynamic type when the package is reloaded (a float initialiser under an int, a string under an int, an int under a
+// float, a bool under a string): the reload re-initialises them to the initialiser's value, whatever the slot holds
+func (c *Ctx) c17DynamicInitialiser() {
+	src := "package main\n\nimport \"fmt\"\n\nvar scale any = 1.5\n\nvar label any = \"a\"\n\nvar whole any = 2\n\nvar flag any = true\n\nvar small any = uint8(200)\n\nvar hits int\n\n" +
+		"func Bump(n int) int {\n\tscale = n\n\tlabel = n + 1\n\twhole = 0.25\n\tflag = \"no\"\n\tsmall = n * 100\n\thits++\n\treturn hits\n}\n\n" +
+		"func State() string {\n\treturn fmt.Sprint(scale, \"|\", label, \"|\", whole, \"|\", flag, \"|\", small, \"|\", hits)\n}\n"
+	sys := fstest.MapFS{"main/main.go": &fstest.MapFile{Data: []byte(src)}}
+	vm := goat.New()
+	for step, q := range []struct {
+		call, want string
+	}{{"load", "ok"}, {"State", "ok 1.5|a|2|true|200|0"}, {"Bump", "ok 1"}, {"State", "ok 7|8|0.25|no|700|1"}, {"load", "ok"}, {"State", "ok 1.5|a|2|true|200|1"},
+		{"Bump", "ok 2"}, {"Bump", "ok 3"}, {"load", "ok"}, {"load", "ok"}, {"State", "ok 1.5|a|2|true|200|3"}} {
+		var rets []goat.Value
+		var err error
+		switch q.call {
+		case "load":
+			err = vm.Load(sys, "main")
+		case "Bump":
+			rets, err = vm.Call("main.Bump", 1, goat.Int(7))
+		default:
+			rets, err = vm.Call("main."+q.call, 1)
+		}
+		c.Rep.Oracle["dynamic-initialiser"]++
+		if got := c19Show(rets, err); got != q.want {
+			c.Rep.Violate(Violation{Kind: "oracle", Cut: "dynamic-initialiser", Input: fmt.Sprintf("step %d (%s) of load, State, Bump(7), State, load, State, Bump, Bump, load, load, State over:\n%s", step, q.call, src), Impl: got, Oracle: q.want})
+			return
+		}
+	}
+}
+
 func runC17(c *Ctx) error {
+	c.c17DynamicInitialiser()
 	c.c17LiveReload()
 	c.c17NilInitialiser()
 	c.c17BuiltinNamed()
